@@ -169,8 +169,42 @@ func runC06(c *fw.Ctx) {
 				phantom = &ph
 				c.Count("rolled_back_fee_updates", 1)
 			} else {
+				// a record of a1 priced exactly under the fees in force NOW, as it would wait in a mempool
+				var waiting []byte
+				var wspec lab.TxSpec
+				var wwant sdk.Coins
+				var wm sdk.Msg
+				if _, isW := upd.(*wrkchaintypes.MsgUpdateParams); isW {
+					if w := pickOwnedWrk(obs, ac[1], r); w != nil {
+						wm = &wrkchaintypes.MsgRecordWrkChainBlock{WrkchainId: w.WrkchainId, Height: w.Lastblock + 1, BlockHash: g.hash(64), Owner: ac[1].Addr.String()}
+					}
+				} else if b := pickOwnedBeacon(obs, ac[1], r); b != nil {
+					wm = &beacontypes.MsgRecordBeaconTimestamp{BeaconId: b.BeaconId, Hash: g.hash(64), SubmitTime: uint64(L.Time.Unix()), Owner: ac[1].Addr.String()}
+				}
+				if wm != nil {
+					wwant, _, _ = fo.expected([]sdk.Msg{wm})
+					wspec = lab.TxSpec{Msgs: []sdk.Msg{wm}, Signers: []lab.Acct{ac[1]}, Fee: wwant, Gas: 2_000_000}
+					if bz, err := L.BuildTx(wspec); err == nil && L.Check(bz).Code == 0 {
+						waiting = bz
+					}
+				}
 				if e.Gov("fees", upd) {
 					c.Count("fee_updates_applied", 1)
+					if waiting != nil && e.Halted == "" {
+						now := feeOracle{e.Last.WrkParams, e.Last.BeaconParams}
+						nwant, _, _ := now.expected([]sdk.Msg{wm})
+						if !nwant.IsEqual(wwant) {
+							c.Count("mempool_rechecks_after_fee_update", 1)
+							if L.Recheck(waiting).Code == 0 {
+								e.BeginBlock(time.Second)
+								resp := e.DeliverRaw(&TxPlan{Spec: wspec, Desc: "waiting in the mempool since before the fee update: " + descMsgs(wspec.Msgs)}, waiting)
+								e.EndBlock()
+								if resp.Code == 0 {
+									c.Violate("admitted-with-wrong-fee", "recheck-after-fee-update", "a record admitted before a governance fee update (offering %s) survived the mempool re-check after the update and was executed; the current parameters price it at %s", wwant, nwant)
+								}
+							}
+						}
+					}
 				}
 			}
 			continue
